@@ -210,7 +210,12 @@ let () =
           let o = obs !st and r = obs (reopen nn mf succs !st) in
           let xs = String.concat "," (List.map (fun tok ->
             tok ^ (if List.mem_assoc tok !strays then "=1" else "=0")) !all_strays) in
-          Buffer.add_string buf (Printf.sprintf " C[%s|%s|%s|%s|%s|v%d|x:%s]" o r r r r (if disk_valid !st then 1 else 0) xs)
+          let ents = List.sort compare (List.map (fun d ->
+            match d.d_refann with
+            | None -> Printf.sprintf "%d.*.-" (int_of_nat d.d_node)
+            | Some _ -> show_desc d) (!st).disk) in
+          Buffer.add_string buf (Printf.sprintf " C[%s|%s|%s|%s|%s|v%d|x:%s|i:%s]" o r r r r
+            (if disk_valid !st then 1 else 0) xs (String.concat "," ents))
         | _ -> failwith "op") ops;
       Buffer.contents buf in
       (* the history is evaluated under two unrelated streams of iteration orders: the
